@@ -61,15 +61,35 @@ var c16BadTexts = []string{"rule \"n0\" begin", "rule \"n1\" \"d\" salience 1 be
 func init() {
 	register(&Prop{
 		ID:   "C16",
-		Rule: "operation histories of up to 20 steps on one pool (sizes (1,2),(1,3),(2,3),(2,4),(3,6)): UpdatePooledRules, UpdatePooledRulesIncremental, RemoveRules (present, absent, repeated names, empty list), ClearPoolRules, SetExecModel (valid and invalid), re-submission of the byte-identical text of the last full or last incremental update, invalid texts for both update kinds, interleaved with single executions and with probe-all executions (max requests parked simultaneously on Hold gates, which forces one request onto every instance, initial and additional); oracle = model (rule map, execution model, cleared flag): after every step IsExist / GetRulesNumber / GetRuleSalience / GetRuleDesc / GetExecModel agree with the model, every execution and every probe result equals the model's rule set with the current tags (validated against the reference scheduling model of the configured execution model), a cleared pool runs nothing and returns an empty map, updates after clear bring it back, no step panics; a second pool built from the same initial text is unaffected by the whole history. Non-trivial: the history contains clear -> incremental, or remove -> incremental, or an update followed by a probe-all on a pool with max >= 3; distinct by case hash",
+		Rule: "operation histories of up to 20 steps on one pool (sizes (1,2),(1,3),(2,3),(2,4),(3,6), in 2% of the cases (64,70),(1,66),(33,34); in 2% of the cases a set of 130-260 rules replaced as a whole by one incremental update): UpdatePooledRules, UpdatePooledRulesIncremental, RemoveRules (present, absent, repeated names, empty list), ClearPoolRules, SetExecModel (valid and invalid), re-submission of the byte-identical text of the last full or last incremental update, invalid texts for both update kinds, interleaved with single executions and with probe-all executions (max requests parked simultaneously on Hold gates, which forces one request onto every instance, initial and additional); oracle = model (rule map, execution model, cleared flag): after every step IsExist / GetRulesNumber / GetRuleSalience / GetRuleDesc / GetExecModel agree with the model, every execution and every probe result equals the model's rule set with the current tags (validated against the reference scheduling model of the configured execution model), a cleared pool runs nothing and returns an empty map, updates after clear bring it back, no step panics; a second pool built from the same initial text is unaffected by the whole history. Non-trivial: the history contains clear -> incremental, or remove -> incremental, or an update followed by a probe-all on a pool with max >= 3; distinct by case hash",
 		New:  func() interface{} { return &C16Case{} },
 		Gen: func(t *rapid.T) interface{} {
 			c := &C16Case{}
 			sizes := [][2]int64{{1, 2}, {1, 3}, {2, 3}, {2, 4}, {3, 6}}
 			s := sizes[uni(t, "pool_size", 0, len(sizes)-1)]
 			c.PoolMin, c.PoolMax = s[0], s[1]
+			if pct(t, "large_pool", 2) {
+				// more instances than fit one machine word of flags
+				big := [][2]int64{{64, 70}, {1, 66}, {33, 34}}
+				s = big[uni(t, "large_pool_size", 0, 2)]
+				c.PoolMin, c.PoolMax = s[0], s[1]
+			}
 			c.EM = uni(t, "em", 1, 4)
 			c.Init = genC08Rules(t, "init_", 0)
+			if pct(t, "large_set", 2) {
+				// a rule set of 130-260 rules, replaced as a whole by one incremental update with
+				// other saliences, then executed and probed
+				nbig := uni(t, "large_set_n", 130, 260)
+				c.Init = nil
+				var repl []C08Rule
+				for i := 0; i < nbig; i++ {
+					name := fmt.Sprintf("b%d", i)
+					c.Init = append(c.Init, C08Rule{Name: name, Sal: int64(uni(t, fmt.Sprintf("bs%d", i), -50, 50)), Desc: "d0"})
+					repl = append(repl, C08Rule{Name: name, Sal: int64(uni(t, fmt.Sprintf("br%d", i), -50, 50)), Desc: "d1"})
+				}
+				c.Ops = []C16Op{{Kind: "incr", Rules: repl}, {Kind: "exec"}, {Kind: "setem", EM: 1}, {Kind: "exec"}, {Kind: "probe"}}
+				return c
+			}
 			n := uni(t, "nops", 1, 12)
 			if thorough() {
 				n = uni(t, "nops_t", 1, 20)
@@ -190,14 +210,16 @@ func checkC16(ci interface{}, x *Ctx) {
 						want = true
 					}
 				}
-				if want {
-					n++
-				}
 				if ex[i] != want {
 					x.Violation("twin-pool-changed", "a second pool built from the same text reports IsExist(%q)=%v after the history on the first pool, want %v\nhistory %s", name, ex[i], want, jsonStr(c.Ops))
 					return nil
 				}
 			}
+			names := map[string]bool{}
+			for _, r := range c.Init {
+				names[r.Name] = true
+			}
+			n = len(names)
 			if got := twin.GetRulesNumber(); got != n {
 				x.Violation("twin-pool-changed", "a second pool built from the same text reports %d rules after the history on the first pool, want %d\nhistory %s", got, n, jsonStr(c.Ops))
 			}
